@@ -51,10 +51,13 @@ func consensusClosure(r *Run) ([]*core.FuncInfo, map[*core.FuncInfo][]string) {
 		}
 	}
 	cg := core.NewCallGraph(r.W)
-	reach := cg.Reach(entries, nil)
+	// the logger's internals are not part of the computation: nothing a logger does flows back into a result
+	reach := cg.Reach(entries, func(f *core.FuncInfo) bool {
+		return f.Pkg != nil && strings.Contains(f.Pkg.PkgPath, "/common/log")
+	})
 	var fs []*core.FuncInfo
 	for f := range reach {
-		if strings.HasSuffix(r.W.FileOf(f.Node().Pos()), ".pb.go") {
+		if strings.HasSuffix(r.W.FileOf(f.Node().Pos()), ".pb.go") || (f.Pkg != nil && strings.Contains(f.Pkg.PkgPath, "/common/log")) {
 			continue
 		}
 		fs = append(fs, f)
